@@ -24,6 +24,8 @@ A *unit template* (/verif/units/<name>.u.c) is C text with directives:
      retself   (method returning Class& through `return *this;` only: emitted as a void function)
      template-ok   (out-of-line member of a class template: the `template <class T>` prefix is stripped; the unit typedefs T)
      retref    (method returning T& to an lvalue: emitted as returning T*, `return lv;` becomes `return &(lv);`)
+     (a template-id in a parameter type, `RefVectorOf<KVStringPair>& toFill`, is mangled to `RefVectorOf_KVStringPair`: R17;
+      the unit supplies that type)
      constref-byvalue   (`const T& x` parameters of scalar type are passed by value; the body must not take &x)
      sub RE => REPL | sub* RE => REPL | drop-loop-contract-ok
      contract / loop K  blocks (lines up to the next key)
